@@ -470,6 +470,7 @@ fn model_class(sc: &Scenario) -> String {
         job: sc.job.clone(),
         proc: model_plan(sc),
         later: vec![],
+        earlier_calls: vec![],
     };
     c19::run_case_isolated(&case, false).outcome_class
 }
